@@ -149,7 +149,7 @@ class Check(CheckBase):
     level = "exploration"
     title = "Left/right pairs merge into one stereo file; no sample is lost or duplicated"
     rule = ("all ordered k-tuples of sibling names (every ordering of every multiset) over a near-collision alphabet: AKAI "
-            "volume, 14 names, k<=3 (quick) / k<=4 (thorough), plus all 4-tuples over the reduced 6-name alphabet and over {A-L, A -R, A -L, A-R}; 3-tuples over {A, A., A L, A R, A. L, A. R} and all orders of the two dotted / undotted pairs; Roland "
+            "volume, 14 names, k<=3 (quick) / k<=4 (thorough), plus all 4-tuples over the reduced 6-name alphabet and over {A-L, A -R, A -L, A-R}; pair stems covering every letter and digit; 3-tuples over {A, A., A L, A R, A. L, A. R} and all orders of the two dotted / undotted pairs; Roland "
             "performance, 11 names (incl. lower-case 'l' / 'r' endings, which are not L/R forms), k<=2 (quick) / k<=3 (thorough); equal lengths (10 frames), and unequal lengths, differing sample "
             "rates, single-frame samples and samples of 2049 frames (one more than the transcoder block) for k<=2 (quick) / "
             "all (thorough); AKAI header names that differ from the directory names (rotated among the siblings / 'DRUM L', 'DRUM R'), S1000- and S3000-type samples mixed in one volume, "
@@ -188,6 +188,10 @@ class Check(CheckBase):
         for t in itertools.permutations(["A L", "A R", "A. L", "A. R"]):
             cases.append({"fmt": "akai", "names": list(t), "lens": "eq"})
             cases.append({"fmt": "akai", "names": list(t) + ["A"], "lens": "eq"})
+        # every letter and digit once in a pair stem and in a mono name (a character the decoder does not know makes the entry vanish)
+        for stem in ("ABCDEFGHI", "JKLMNOPQR", "STUVWXYZ", "0123456789", "FUZZ", "#+.-X"):
+            cases.append({"fmt": "akai", "names": [stem[:9] + "-L", stem[:9] + "-R", stem[:12]], "lens": "eq"})
+            cases.append({"fmt": "akai", "names": [stem[:9] + " R", stem[:12], stem[:9] + " L"], "lens": "eq"})
         # duplicated halves with different separators (the '(n)' given to a duplicate must not create a new pair)
         for t in itertools.product(["A-L", "A -R", "A -L", "A-R"], repeat=4):
             cases.append({"fmt": "akai", "names": list(t), "lens": "eq"})
